@@ -251,4 +251,29 @@ def stripAt (ts : Toks) (i : Nat) : Toks :=
   | .op _ _ _ :: rest => mergeTxt (ts.take i ++ ((takeInner rest 1).1 ++ (takeInner rest 1).2))
   | _ => ts
 
+/-! ### moving the end tag of a range: `set_reference_mark_end`, `insert_annotation_end` (after fix C09-F6)
+
+The new end tag is inserted first — if the place is not found the call raises and nothing has changed —, only then is the
+former end tag of the range deleted (its tail kept).  In the token stream the two tags would be indistinguishable: the new one
+carries a provisional label `tmp` until the former one (kind `k`, label `lab`) is gone. -/
+
+/-- index of the first start tag of kind `k` and label `l` -/
+def findOp (k l : Nat) : Toks → Nat → Option Nat
+  | [], _ => none
+  | .op k' l' _ :: rest, i => if k' = k ∧ l' = l then some i else findOp k l rest (i + 1)
+  | _ :: rest, i => findOp k l rest (i + 1)
+
+def relabelOp (k l' l : Nat) (ts : Toks) : Toks :=
+  ts.map (fun t => match t with
+    | .op k2 l2 h => if k2 = k ∧ l2 = l' then .op k l h else t
+    | t => t)
+
+/-- `ins` = the insertion of the new end tag `[.op k tmp _, .cl]` (by position, or before / after a regex match) -/
+def moveEnd (k lab tmp : Nat) (ins : Toks → Option Toks) (ts : Toks) : Option Toks :=
+  (ins ts).map (fun ts' =>
+    relabelOp k tmp lab (match findOp k lab ts' 0 with
+      | none => ts'
+      | some i => deleteAt ts' i))
+
 end Odf.Markup
+
